@@ -1,9 +1,390 @@
 /-
-Helper lemmas for C25: `checkedRound` reduced to its arithmetic core.
+Helper lemmas for C25: `checkedRound` reduced to its arithmetic core (`roundCore`), the declarative
+meaning of the seven rounding modes (`IsRounded`), and the link between the two.
 -/
 import RadixModel.Model.Decimal
 import RadixModel.Lemmas.Decimal
 
 namespace Radix.Dec
+
+/-- Declarative meaning of the rounding modes: `r` is `x` rounded to a multiple of `d` by `mode`. -/
+def IsRounded (mode : Mode) (d x r : Int) : Prop :=
+  d ∣ r ∧ |x - r| < d ∧
+  match mode with
+  | .toPositiveInfinity => x ≤ r
+  | .toNegativeInfinity => r ≤ x
+  | .toZero => |r| ≤ |x|
+  | .awayFromZero => |x| ≤ |r|
+  | .toNearestMidpointTowardZero => 2 * |x - r| ≤ d ∧ (2 * |x - r| = d → |r| < |x|)
+  | .toNearestMidpointAwayFromZero => 2 * |x - r| ≤ d ∧ (2 * |x - r| = d → |x| < |r|)
+  | .toNearestMidpointToEven => 2 * |x - r| ≤ d ∧ (2 * |x - r| = d → 2 * d ∣ r)
+
+/-- The arithmetic core of `checked_round` once the divisor `d = 10^(SCALE - places)` is known and
+all the internal panicking operations have been shown safe. -/
+def roundCore (t : Ty) (mode : Mode) (d x : Int) : Outcome :=
+  if Int.tmod x d = 0 then .val x else
+  let pr := if Int.tmod x d < 0 then d + Int.tmod x d else Int.tmod x d
+  match Strategy.fromMode mode (decide (x > 0)) (intCmp pr (d / 2)) with
+  | .roundUp => Outcome.ofOption (chk t.bits (x + (d - pr)))
+  | .roundDown => Outcome.ofOption (chk t.bits (x - pr))
+  | .roundToEven =>
+    if x > 0 then
+      if Int.tmod (x - pr) (d * 2) = 0 then .val (x - pr)
+      else Outcome.ofOption (chk t.bits (x - pr + d))
+    else
+      if Int.tmod (x + (d - pr)) (d * 2) = 0 then .val (x + (d - pr))
+      else Outcome.ofOption (chk t.bits (x + (d - pr) - d))
+
+/-- positive remainder of `x` modulo `d` as computed by the code -/
+def posRem (d x : Int) : Int := if Int.tmod x d < 0 then d + Int.tmod x d else Int.tmod x d
+
+theorem posRem_facts (d x : Int) (hd : 0 < d) (hrem : Int.tmod x d ≠ 0) :
+    0 < posRem d x ∧ posRem d x < d ∧ (∃ k, x - posRem d x = d * k) ∧
+    (x > 0 → 0 ≤ x - posRem d x ∧ Int.tmod x d > 0) ∧
+    (¬ x > 0 → x - posRem d x + d ≤ 0 ∧ Int.tmod x d < 0) := by
+  have h := Int.tmod_add_tdiv_mul x d
+  have h2 := Int.tmod_lt_of_pos x hd
+  have h3 := Int.lt_tmod_of_pos x hd
+  have hb := tdiv_bounds x d hd
+  unfold posRem
+  by_cases hx : x > 0
+  · have h1 := Int.tmod_nonneg d (Int.le_of_lt hx)
+    have hq := (hb.1 (Int.le_of_lt hx)).2.2
+    have hprod : 0 ≤ Int.tdiv x d * d := Int.mul_nonneg hq (Int.le_of_lt hd)
+    rw [if_neg (by omega)]
+    refine ⟨by omega, h2, ⟨Int.tdiv x d, ?_⟩, fun _ => ⟨by omega, by omega⟩, fun h' => absurd hx h'⟩
+    rw [Int.mul_comm]; omega
+  · have h1 : Int.tmod x d ≤ 0 := by
+      have := Int.tmod_nonneg d (by omega : 0 ≤ -x)
+      rw [Int.neg_tmod] at this; omega
+    have hq := (hb.2 (by omega)).2.2
+    have hprod : 0 ≤ (-Int.tdiv x d) * d := Int.mul_nonneg (by omega) (Int.le_of_lt hd)
+    rw [Int.neg_mul] at hprod
+    rw [if_pos (by omega)]
+    refine ⟨by omega, by omega, ⟨Int.tdiv x d - 1, ?_⟩, fun h' => absurd h' hx, fun _ => ⟨by omega, by omega⟩⟩
+    rw [Int.mul_sub, Int.mul_one, Int.mul_comm]; omega
+
+/-! ## Divisors `10^n` -/
+
+theorem pow10_eq (n : Nat) : pow10 n = (10 : Int) ^ n := rfl
+
+theorem pow10_facts (t : Ty) (n : Nat) (hn : n ≤ t.scale) :
+    0 < pow10 n ∧ InBits t.bits (pow10 n) ∧ InBits t.bits (pow10 n * 2) ∧
+    (pow10 n = 1 ∨ 2 ∣ pow10 n) := by
+  rw [pow10_eq]
+  have hpos : 0 < (10 : Int) ^ n := by positivity
+  have hle : (10 : Int) ^ n ≤ 10 ^ t.scale := pow_le_pow_right₀ (by norm_num) hn
+  refine ⟨hpos, ?_, ?_, ?_⟩
+  · cases t
+    · simp only [Ty.bits, Ty.scale, minOf, maxOf, InBits, half_192] at *; norm_num at hle; omega
+    · simp only [Ty.bits, Ty.scale, minOf, maxOf, InBits, half_256] at *; norm_num at hle; omega
+  · cases t
+    · simp only [Ty.bits, Ty.scale, minOf, maxOf, InBits, half_192] at *; norm_num at hle; omega
+    · simp only [Ty.bits, Ty.scale, minOf, maxOf, InBits, half_256] at *; norm_num at hle; omega
+  · cases n with
+    | zero => left; rfl
+    | succ m => right; exact ⟨5 * 10 ^ m, by rw [pow_succ]; ring⟩
+
+theorem wrap_of_inBits (bits : Nat) (hb : 0 < bits) (v : Int) (hv : InBits bits v) : wrap bits v = v := by
+  unfold wrap
+  have hp := half_pos bits
+  have h2 : (2 : Int) ^ bits = 2 * half bits := by
+    unfold half
+    have : bits = (bits - 1) + 1 := by omega
+    conv_lhs => rw [this, pow_succ]
+    ring
+  unfold InBits minOf maxOf at hv
+  rw [h2, Int.emod_eq_of_lt (by omega) (by omega)]
+  omega
+
+/-- For admissible `places` every internal panicking operation of `checked_round` is safe, and the
+function is its arithmetic core. -/
+theorem checkedRound_eq_core (t : Ty) (p : Int) (hp0 : 0 ≤ p) (hp : p ≤ t.scale) (mode : Mode)
+    (x : Int) (hx : t.InRange x) :
+    checkedRound t p mode x = roundCore t mode (pow10 (t.scale - p.toNat)) x := by
+  obtain ⟨hd, hdin, hd2in, _⟩ := pow10_facts t (t.scale - p.toNat) (by omega)
+  have hbits : 0 < t.bits := by cases t <;> decide
+  unfold checkedRound roundCore
+  rw [if_neg (by omega)]
+  dsimp only
+  generalize pow10 (t.scale - p.toNat) = d at *
+  simp only [chk_of_inBits hdin]
+  rw [if_neg (ne_of_gt hd)]
+  by_cases hrem : Int.tmod x d = 0
+  · rw [if_pos hrem, if_pos hrem]
+  · rw [if_neg hrem, if_neg hrem]
+    obtain ⟨hpr0, hprd, _, hpos, hneg⟩ := posRem_facts d x hd hrem
+    have hxr : InBits t.bits x := hx
+    unfold InBits minOf maxOf at hxr hdin
+    have hpr_in : InBits t.bits (posRem d x) := by unfold InBits minOf maxOf; omega
+    have hprchk : (if Int.tmod x d < 0 then chk t.bits (d + Int.tmod x d) else some (Int.tmod x d))
+        = some (posRem d x) := by
+      unfold posRem at *
+      by_cases h : Int.tmod x d < 0
+      · rw [if_pos h] at hpr_in ⊢; rw [if_pos h]; exact chk_of_inBits hpr_in
+      · rw [if_neg h]; rw [if_neg h]
+    rw [hprchk]
+    simp only
+    have hpe : (if Int.tmod x d < 0 then d + Int.tmod x d else Int.tmod x d) = posRem d x := rfl
+    rw [hpe]
+    have htoadd : chk t.bits (d - posRem d x) = some (d - posRem d x) :=
+      chk_of_inBits (by unfold InBits minOf maxOf; omega)
+    have hwrap : wrap t.bits (d * 2) = d * 2 := wrap_of_inBits t.bits hbits _ hd2in
+    cases Strategy.fromMode mode (decide (x > 0)) (intCmp (posRem d x) (d / 2)) with
+    | roundUp => simp only [htoadd]
+    | roundDown => rfl
+    | roundToEven =>
+      simp only [htoadd, hwrap]
+      rw [if_neg (by omega : ¬ d * 2 = 0)]
+      by_cases hx0 : x > 0
+      · have hlo := (hpos hx0).1
+        have : chk t.bits (x - posRem d x) = some (x - posRem d x) :=
+          chk_of_inBits (by unfold InBits minOf maxOf; omega)
+        simp only [hx0, decide_true, if_true, this]
+      · have hhi := (hneg hx0).1
+        have : chk t.bits (x + (d - posRem d x)) = some (x + (d - posRem d x)) :=
+          chk_of_inBits (by unfold InBits minOf maxOf; omega)
+        simp only [hx0, decide_false, Bool.false_eq_true, if_false, this]
+
+/-! ## The core picks the value prescribed by the mode -/
+
+theorem dvd_double_alt (d k : Int) (h : ¬ (d * 2) ∣ d * k) : (d * 2) ∣ (d * k + d) := by
+  obtain ⟨j, hj⟩ : ∃ j, k = 2 * j ∨ k = 2 * j + 1 := ⟨k / 2, by omega⟩
+  rcases hj with hj | hj
+  · exfalso; apply h; exact ⟨j, by rw [hj]; ring⟩
+  · exact ⟨j + 1, by rw [hj]; ring⟩
+
+/-- abs-elimination followed by linear arithmetic -/
+macro "abs_omega" : tactic =>
+  `(tactic| (simp only [abs_lt, abs_le, lt_abs, le_abs] at * <;> omega))
+
+theorem cmp_cases {d pr : Int} (hpar : d = 1 ∨ 2 ∣ d) (hpr0 : 0 < pr) (hprd : pr < d) :
+    (intCmp pr (d / 2) = .lt ∧ 2 * pr < d) ∨ (intCmp pr (d / 2) = .eq ∧ 2 * pr = d) ∨
+    (intCmp pr (d / 2) = .gt ∧ d < 2 * pr) := by
+  unfold intCmp
+  rcases lt_trichotomy pr (d / 2) with hc | hc | hc
+  · left; rw [if_pos hc]; exact ⟨rfl, by omega⟩
+  · right; left; rw [if_neg (by omega), if_pos hc]; exact ⟨rfl, by rcases hpar with h | h <;> omega⟩
+  · right; right; rw [if_neg (by omega), if_neg (by omega)]; exact ⟨rfl, by omega⟩
+
+section pick
+variable {d x pr k : Int} (hd : 0 < d) (hpar : d = 1 ∨ 2 ∣ d) (hpr0 : 0 < pr) (hprd : pr < d)
+  (hk : x - pr = d * k) (hpos : x > 0 → 0 ≤ x - pr) (hneg : ¬ x > 0 → x - pr + d ≤ 0)
+include hd hpar hpr0 hprd hk hpos hneg
+
+theorem isRounded_down (mode : Mode)
+    (hS : Strategy.fromMode mode (decide (x > 0)) (intCmp pr (d / 2)) = .roundDown) :
+    IsRounded mode d x (x - pr) := by
+  have hdvd : d ∣ x - pr := ⟨k, hk⟩
+  have hxr : x - (x - pr) = pr := by omega
+  unfold IsRounded
+  rw [hxr, abs_of_pos hpr0]
+  refine ⟨hdvd, hprd, ?_⟩
+  by_cases hx0 : x > 0
+  · have h1 := hpos hx0
+    have ax : |x| = x := abs_of_pos hx0
+    have ar : |x - pr| = x - pr := abs_of_nonneg h1
+    rcases cmp_cases hpar hpr0 hprd with ⟨hc, h2⟩ | ⟨hc, h2⟩ | ⟨hc, h2⟩ <;> rw [hc] at hS <;> cases mode <;>
+      simp [Strategy.fromMode, Strategy.towardsZero, Strategy.awayFromZero,
+        Strategy.fromMidpointOrdering, hx0] at hS ⊢ <;>
+      (try rw [ax, ar]) <;> (try omega) <;> (try (constructor <;> intros <;> omega))
+  · have h1 := hneg hx0
+    have ax : |x| = -x := abs_of_nonpos (by omega)
+    have ar : |x - pr| = -(x - pr) := abs_of_nonpos (by omega)
+    rcases cmp_cases hpar hpr0 hprd with ⟨hc, h2⟩ | ⟨hc, h2⟩ | ⟨hc, h2⟩ <;> rw [hc] at hS <;> cases mode <;>
+      simp [Strategy.fromMode, Strategy.towardsZero, Strategy.awayFromZero,
+        Strategy.fromMidpointOrdering, hx0] at hS ⊢ <;>
+      (try rw [ax, ar]) <;> (try omega) <;> (try (constructor <;> intros <;> omega))
+
+theorem isRounded_up (mode : Mode)
+    (hS : Strategy.fromMode mode (decide (x > 0)) (intCmp pr (d / 2)) = .roundUp) :
+    IsRounded mode d x (x + (d - pr)) := by
+  have hdvd : d ∣ x + (d - pr) := ⟨k + 1, by rw [Int.mul_add, Int.mul_one, ← hk]; omega⟩
+  have hxr : x - (x + (d - pr)) = -(d - pr) := by omega
+  unfold IsRounded
+  rw [hxr, abs_neg, abs_of_pos (by omega : 0 < d - pr)]
+  refine ⟨hdvd, by omega, ?_⟩
+  by_cases hx0 : x > 0
+  · have h1 := hpos hx0
+    have ax : |x| = x := abs_of_pos hx0
+    have ar : |x + (d - pr)| = x + (d - pr) := abs_of_nonneg (by omega)
+    rcases cmp_cases hpar hpr0 hprd with ⟨hc, h2⟩ | ⟨hc, h2⟩ | ⟨hc, h2⟩ <;> rw [hc] at hS <;> cases mode <;>
+      simp [Strategy.fromMode, Strategy.towardsZero, Strategy.awayFromZero,
+        Strategy.fromMidpointOrdering, hx0] at hS ⊢ <;>
+      (try rw [ax, ar]) <;> (try omega) <;> (try (constructor <;> intros <;> omega))
+  · have h1 := hneg hx0
+    have ax : |x| = -x := abs_of_nonpos (by omega)
+    have ar : |x + (d - pr)| = -(x + (d - pr)) := abs_of_nonpos (by omega)
+    rcases cmp_cases hpar hpr0 hprd with ⟨hc, h2⟩ | ⟨hc, h2⟩ | ⟨hc, h2⟩ <;> rw [hc] at hS <;> cases mode <;>
+      simp [Strategy.fromMode, Strategy.towardsZero, Strategy.awayFromZero,
+        Strategy.fromMidpointOrdering, hx0] at hS ⊢ <;>
+      (try rw [ax, ar]) <;> (try omega) <;> (try (constructor <;> intros <;> omega))
+
+/-- the strategy resolves to `RoundToEven` only for the to-even mode exactly at the midpoint -/
+theorem even_only_at_tie (mode : Mode)
+    (hS : Strategy.fromMode mode (decide (x > 0)) (intCmp pr (d / 2)) = .roundToEven) :
+    mode = .toNearestMidpointToEven ∧ 2 * pr = d := by
+  rcases cmp_cases hpar hpr0 hprd with ⟨hc, h2⟩ | ⟨hc, h2⟩ | ⟨hc, h2⟩ <;> rw [hc] at hS <;> cases mode <;>
+    simp [Strategy.fromMode, Strategy.towardsZero, Strategy.awayFromZero,
+      Strategy.fromMidpointOrdering] at hS ⊢ <;>
+    (try (split at hS <;> simp at hS)) <;> (try omega)
+
+theorem isRounded_even_lo (h2 : 2 * pr = d) (he : (d * 2) ∣ (x - pr)) :
+    IsRounded .toNearestMidpointToEven d x (x - pr) := by
+  have hxr : x - (x - pr) = pr := by omega
+  unfold IsRounded
+  rw [hxr, abs_of_pos hpr0]
+  refine ⟨⟨k, hk⟩, hprd, by omega, fun _ => ?_⟩
+  rw [Int.mul_comm]; exact he
+
+theorem isRounded_even_hi (h2 : 2 * pr = d) (he : (d * 2) ∣ (x + (d - pr))) :
+    IsRounded .toNearestMidpointToEven d x (x + (d - pr)) := by
+  have hxr : x - (x + (d - pr)) = -(d - pr) := by omega
+  unfold IsRounded
+  rw [hxr, abs_neg, abs_of_pos (by omega : 0 < d - pr)]
+  refine ⟨⟨k + 1, by rw [Int.mul_add, Int.mul_one, ← hk]; omega⟩, by omega, by omega, fun _ => ?_⟩
+  rw [Int.mul_comm]; exact he
+
+end pick
+
+/-- The arithmetic core returns the value prescribed by the mode when it is representable and
+`none` when it is not. -/
+theorem roundCore_pick (t : Ty) (mode : Mode) (d x : Int) (hd : 0 < d) (hpar : d = 1 ∨ 2 ∣ d)
+    (hx : t.InRange x) :
+    ∃ r, IsRounded mode d x r ∧ roundCore t mode d x = Outcome.ofOption (chk t.bits r) := by
+  unfold roundCore
+  by_cases hrem : Int.tmod x d = 0
+  · refine ⟨x, ⟨Int.dvd_of_tmod_eq_zero hrem, by simpa using hd, ?_⟩, ?_⟩
+    · cases mode <;> simp <;> omega
+    · rw [if_pos hrem, chk_of_inBits hx]; rfl
+  · rw [if_neg hrem]
+    obtain ⟨hpr0, hprd, ⟨k, hk⟩, hpos, hneg⟩ := posRem_facts d x hd hrem
+    have hpe : (if Int.tmod x d < 0 then d + Int.tmod x d else Int.tmod x d) = posRem d x := rfl
+    simp only [hpe]
+    have hpos' : x > 0 → 0 ≤ x - posRem d x := fun h => (hpos h).1
+    have hneg' : ¬ x > 0 → x - posRem d x + d ≤ 0 := fun h => (hneg h).1
+    generalize posRem d x = pr at *
+    cases hS : Strategy.fromMode mode (decide (x > 0)) (intCmp pr (d / 2)) with
+    | roundUp => exact ⟨_, isRounded_up hd hpar hpr0 hprd hk hpos' hneg' mode hS, rfl⟩
+    | roundDown => exact ⟨_, isRounded_down hd hpar hpr0 hprd hk hpos' hneg' mode hS, rfl⟩
+    | roundToEven =>
+      obtain ⟨hm, h2⟩ := even_only_at_tie hd hpar hpr0 hprd hk hpos' hneg' mode hS
+      subst hm
+      have hxin : InBits t.bits x := hx
+      unfold InBits minOf maxOf at hxin
+      simp only
+      by_cases hx0 : x > 0
+      · rw [if_pos hx0]
+        have hin : InBits t.bits (x - pr) := by
+          have := hpos' hx0; unfold InBits minOf maxOf; omega
+        by_cases he : Int.tmod (x - pr) (d * 2) = 0
+        · rw [if_pos he]
+          refine ⟨x - pr, isRounded_even_lo hd hpar hpr0 hprd hk hpos' hneg' h2 (Int.dvd_of_tmod_eq_zero he), ?_⟩
+          rw [chk_of_inBits hin]; rfl
+        · rw [if_neg he]
+          have hnd : ¬ (d * 2) ∣ d * k := fun hc => he (Int.tmod_eq_zero_of_dvd (hk ▸ hc))
+          have h3 := dvd_double_alt d k hnd
+          have e : x - pr + d = x + (d - pr) := by omega
+          rw [e]
+          refine ⟨x + (d - pr), isRounded_even_hi hd hpar hpr0 hprd hk hpos' hneg' h2 ?_, rfl⟩
+          have : x + (d - pr) = d * k + d := by omega
+          rw [this]; exact h3
+      · rw [if_neg hx0]
+        have hin : InBits t.bits (x + (d - pr)) := by
+          have := hneg' hx0; unfold InBits minOf maxOf; omega
+        by_cases he : Int.tmod (x + (d - pr)) (d * 2) = 0
+        · rw [if_pos he]
+          refine ⟨x + (d - pr), isRounded_even_hi hd hpar hpr0 hprd hk hpos' hneg' h2 (Int.dvd_of_tmod_eq_zero he), ?_⟩
+          rw [chk_of_inBits hin]; rfl
+        · rw [if_neg he]
+          have e : x + (d - pr) - d = x - pr := by omega
+          rw [e]
+          refine ⟨x - pr, isRounded_even_lo hd hpar hpr0 hprd hk hpos' hneg' h2 ?_, rfl⟩
+          -- `d*k + d` is not a multiple of `2d`, so `d*k` is
+          by_contra hc
+          apply he
+          apply Int.tmod_eq_zero_of_dvd
+          have h3 := dvd_double_alt d k (hk ▸ hc)
+          have : x + (d - pr) = d * k + d := by omega
+          rw [this]; exact h3
+
+/-! ## The prescribed value is unique -/
+
+private theorem isRounded_adjacent_false (mode : Mode) (d x r : Int) (hd : 0 < d)
+    (h : IsRounded mode d x r) (h' : IsRounded mode d x (r + d)) : False := by
+  obtain ⟨⟨j, hj⟩, hlt, hm⟩ := h
+  obtain ⟨_, hlt', hm'⟩ := h'
+  rw [abs_lt] at hlt hlt'
+  -- r < x < r + d
+  have hxr : |x - r| = x - r := abs_of_pos (by omega)
+  have hxr' : |x - (r + d)| = r + d - x := by rw [abs_of_neg (by omega)]; omega
+  rw [hxr] at hm; rw [hxr'] at hm'
+  have hrd : r + d = d * (j + 1) := by rw [Int.mul_add, Int.mul_one, ← hj]
+  by_cases hx : 0 < x
+  · -- `r` and `r + d` are non-negative
+    have h2 : 0 < j + 1 := Int.pos_of_mul_pos_right (by rw [← hrd]; omega) hd
+    have hr0 : 0 ≤ r := by rw [hj]; exact Int.mul_nonneg (Int.le_of_lt hd) (by omega)
+    have a1 : |x| = x := abs_of_pos hx
+    have a2 : |r| = r := abs_of_nonneg hr0
+    have a3 : |r + d| = r + d := abs_of_nonneg (by omega)
+    cases mode <;> simp only [a1, a2, a3] at hm hm' <;> try omega
+    -- to even: both neighbours are ties, so `2d ∣ r` and `2d ∣ r + d`, hence `2d ∣ d`
+    have e1 := hm.2 (by omega)
+    have e2 := hm'.2 (by omega)
+    have e3 : 2 * d ∣ d := by
+      have := Int.dvd_sub e2 e1
+      have e : r + d - r = d := by omega
+      rwa [e] at this
+    have := Int.le_of_dvd hd e3
+    omega
+  · have h2 : j < 0 := Int.neg_of_mul_neg_right (by rw [← hj]; omega) hd
+    have hrd0 : r + d ≤ 0 := by
+      rw [hrd]; exact Int.mul_nonpos_of_nonneg_of_nonpos (Int.le_of_lt hd) (by omega)
+    have a1 : |x| = -x := abs_of_nonpos (by omega)
+    have a2 : |r| = -r := abs_of_nonpos (by omega)
+    have a3 : |r + d| = -(r + d) := abs_of_nonpos hrd0
+    cases mode <;> simp only [a1, a2, a3] at hm hm' <;> try omega
+    have e1 := hm.2 (by omega)
+    have e2 := hm'.2 (by omega)
+    have e3 : 2 * d ∣ d := by
+      have := Int.dvd_sub e2 e1
+      have e : r + d - r = d := by omega
+      rwa [e] at this
+    have := Int.le_of_dvd hd e3
+    omega
+
+/-- For every mode there is at most one value `x` can be rounded to. -/
+theorem isRounded_unique (mode : Mode) (d x r r' : Int) (hd : 0 < d)
+    (h : IsRounded mode d x r) (h' : IsRounded mode d x r') : r = r' := by
+  obtain ⟨j, hj⟩ := h.1
+  obtain ⟨j', hj'⟩ := h'.1
+  have hlt := abs_lt.mp h.2.1
+  have hlt' := abs_lt.mp h'.2.1
+  have h1 : d * (j - j') < d * 2 := by rw [Int.mul_sub, ← hj, ← hj']; omega
+  have h2 : d * (j' - j) < d * 2 := by rw [Int.mul_sub, ← hj, ← hj']; omega
+  have h3 := Int.lt_of_mul_lt_mul_left h1 (Int.le_of_lt hd)
+  have h4 := Int.lt_of_mul_lt_mul_left h2 (Int.le_of_lt hd)
+  have hcases : j' = j ∨ j' = j + 1 ∨ j = j' + 1 := by omega
+  rcases hcases with e | e | e
+  · rw [hj, hj', e]
+  · exfalso
+    have : r' = r + d := by rw [hj, hj', e, Int.mul_add, Int.mul_one]
+    rw [this] at h'
+    exact isRounded_adjacent_false mode d x r hd h h'
+  · exfalso
+    have : r = r' + d := by rw [hj, hj', e, Int.mul_add, Int.mul_one]
+    rw [this] at h
+    exact isRounded_adjacent_false mode d x r' hd h' h
+
+/-- If `r` is the value prescribed by `mode` and is representable, `checked_round` returns it. -/
+theorem checkedRound_of_isRounded (t : Ty) (p : Int) (hp0 : 0 ≤ p) (hp : p ≤ t.scale) (mode : Mode)
+    (x r : Int) (hx : t.InRange x) (hr : IsRounded mode (pow10 (t.scale - p.toNat)) x r)
+    (hin : t.InRange r) : checkedRound t p mode x = .val r := by
+  obtain ⟨hd, _, _, hpar⟩ := pow10_facts t (t.scale - p.toNat) (by omega)
+  rw [checkedRound_eq_core t p hp0 hp mode x hx]
+  obtain ⟨r0, hr0, he⟩ := roundCore_pick t mode _ x hd hpar hx
+  have : r = r0 := isRounded_unique mode _ x r r0 hd hr hr0
+  subst this
+  rw [he, chk_of_inBits hin]; rfl
 
 end Radix.Dec
